@@ -112,6 +112,14 @@ structure DetState (F : Type) where
   sign : F
   singular : Bool
 
+/-- subtract from every row below `k` the multiple of row `k` that clears its entry in column `k` -/
+def elimBelow (rows : Mat F) (k : Nat) : Mat F :=
+  let prow := rows.getD k []
+  let pv := prow.getD k 0
+  rows.mapIdx fun i row =>
+    if i ≤ k then row
+    else elimRow row prow (row.getD k 0 * pv⁻¹)
+
 /-- one step of `Determinant`'s forward elimination at diagonal position `k` -/
 def detStep (s : DetState F) (k : Nat) : DetState F :=
   if s.singular then s else
@@ -119,13 +127,8 @@ def detStep (s : DetState F) (k : Nat) : DetState F :=
   | none => { s with singular := true }
   | some pr =>
     let rows1 := if pr = k then s.rows else swapRows s.rows k pr
-    let sign := if pr = k then s.sign else - s.sign
-    let prow := rows1.getD k []
-    let pv := prow.getD k 0
-    let rows2 := rows1.mapIdx fun i row =>
-      if i ≤ k then row
-      else elimRow row prow (row.getD k 0 * pv⁻¹)
-    { rows := rows2, det := s.det * pv, sign := sign, singular := false }
+    { rows := elimBelow rows1 k, det := s.det * entry rows1 k k,
+      sign := if pr = k then s.sign else - s.sign, singular := false }
 
 def det (m : Mat F) : F :=
   let s := (List.range m.length).foldl detStep { rows := m, det := 1, sign := 1, singular := false }
